@@ -64,6 +64,21 @@ def configs(tier, seed):
     for w in ("global", "model", "both", "none", "two-weights"):
         out.append({"name": f"weight-{w}", "kind": "weight", "w": w, "shape": [2, 3] if not big else [3, 3]})
     out.append({"name": "weight-dataset-and-model", "kind": "weight2", "shape": [2, 2]})
+    # end to end through the real optimisation pipeline, interval bounds symbolic, linked and unlinked groups
+    A4 = [0.0, 1.0, 2.0, 3.5]
+    for linked in (False, True):
+        dss = [{"label": "d1", "mc": ["m1"], "maxis": A4, "gaxis": [1.0, 2.0, 3.0]}]
+        if linked:
+            dss.append({"label": "d2", "mc": ["m1"], "maxis": A4, "gaxis": [2.0, 3.0, 4.0], "scale": "sc2"})
+        base = {"mcs": {"m1": {"labels": ["s1", "s2", "s3"]}}, "datasets": dss, "groups": {"default": {"link_clp": linked}}}
+        tag = "linked" if linked else "unlinked"
+        out.append(dict(base, name=f"pipeline-zero-{tag}", kind="pipeline", constraints=[{"type": "zero", "target": "s2", "interval": ["lo", "hi"]}]))
+        out.append(dict(base, name=f"pipeline-only-{tag}", kind="pipeline", constraints=[{"type": "only", "target": "s3", "interval": ["lo", "hi"]}]))
+        out.append(dict(base, name=f"pipeline-relation-{tag}", kind="pipeline",
+                        relations=[{"source": "s1", "target": "s2", "parameter": "rel1", "interval": ["lo", "hi"]}]))
+        out.append(dict(base, name=f"pipeline-penalty-{tag}", kind="pipeline",
+                        penalties=[{"source": "s1", "source_intervals": [["lo", "hi"]], "target": "s3", "target_intervals": [[1.0, 4.0]],
+                                    "parameter": "pen1"}]))
     return out
 
 
@@ -79,7 +94,7 @@ def run_config(cfg, rec):
             p.set(m, "np", f, "numpy facade")
         rec.shims += p.record
         {"applies": _applies, "slice": _slice, "monotone": _monotone, "area": _area, "reduce": _reduce,
-         "weight": _weight, "weight2": _weight2}[cfg["kind"]](cfg, rec)
+         "weight": _weight, "weight2": _weight2, "pipeline": _pipeline}[cfg["kind"]](cfg, rec)
 
 
 # ------------------------------------------------------------------ spec helpers (inputs only)
@@ -218,7 +233,7 @@ def _slice(cfg, rec):
     rec.encodes(dp.DataProvider.get_axis_slice_from_interval)
     n = cfg["n"]
 
-    def fn(ctx):
+    def fn(ctx):  # noqa: F811 - kept for reference, fn2 below is the one explored
         axis = _sym_axis(ctx, "a", n)
         lo = -INF if cfg["lo_inf"] else sym("lo")
         hi = INF if cfg["hi_inf"] else sym("hi")
@@ -565,6 +580,112 @@ def _weight2(cfg, rec):
         rec.want_sample() and rec.sample({"warnings": nwarn})
 
 
+# ------------------------------------------------------------------ end to end through the pipeline
+def _pipeline_axis(cfg):
+    from harness import pipeline as pl
+
+    dss = cfg["datasets"]
+    if pl.group_is_linked(cfg, "default", dss):
+        return pl.spec_align(cfg, dss)[0]
+    return [float(v) for v in dss[0]["gaxis"]]
+
+
+def _pipeline(cfg, rec):
+    """The real Optimizer.calculate_penalty with a symbolic interval: the set of global indices at which the item acts."""
+    import warnings as _w
+
+    from harness import c02_objective as c02
+    from harness import pipeline as pl
+    from glotaran.optimization.optimizer import Optimizer
+
+    axis = _pipeline_axis(cfg)
+    with Patcher() as p:
+        src = pl.Source(None)
+        stubs = pl.install(p, src)
+        rec.shims += p.record
+
+        def fn(ctx):
+            for s_ in stubs.values():
+                s_.calls.clear()
+                s_.cache.clear()
+            with _w.catch_warnings():
+                _w.simplefilter("ignore")
+                scheme = pl.build_scheme(cfg, src)
+                opt = Optimizer(scheme, verbose=False)
+                pen = opt.calculate_penalty()
+            return c02.ordered_calls(stubs), pen
+
+        for ctx, (kind, out) in core.explore(fn, rec.stats, max_paths=400):
+            rec.witness_path(ctx)
+            lo, hi = z3.Real("IV_lo"), z3.Real("IV_hi")
+            wit = lambda mm: {"env": model_env(mm, [lo, hi])}  # noqa: E731
+            if kind == "exc":
+                rec.unexpected(ctx, f"pipeline raised {type(out).__name__}: {out}", "pipeline:exception", wit)
+                continue
+            calls, pen = out
+            items = []
+            if cfg.get("constraints") or cfg.get("relations"):
+                item = (cfg.get("constraints") or cfg.get("relations"))[0]
+                if len(calls) != len(axis):
+                    rec.unexpected(ctx, f"{len(calls)} problems for {len(axis)} indices", "pipeline:problems", wit)
+                    continue
+                for i, a in enumerate(axis):
+                    acts = calls[i]["matrix"].shape[1] == 2  # one of the three columns is gone at this index
+                    ins = inside(zreal(a), lo, hi)
+                    want = z3.Not(ins) if item.get("type") == "only" else ins
+                    items.append(("end to end: the item acts at exactly the global indices inside its closed interval (only = complement)",
+                                  want == z3.BoolVal(bool(acts)), f"pipeline:{item.get('type', 'relation')}:index-set"))
+            else:
+                # equal-area penalty: which indices' clps enter the source area (sandwich: Inside <= used <= Hull)
+                last = zreal(np.asarray(pen, dtype=object).flat[-1])
+                names = set(core.free_vars(last))
+                used = []
+                for i in range(len(axis)):
+                    kid = calls[i]["kid"]
+                    tag = stubs[calls[i]["fn"]].tag
+                    used.append(f"c{tag}{kid}_0" in names)  # clp of label s1 (first column) at index i
+                az = [zreal(a) for a in axis]
+                n = len(axis)
+                idx = [i for i, u in enumerate(used) if u]
+                sl = slice(min(idx), max(idx) + 1) if idx else slice(0, 0)
+                items.append(("equal-area source indices form one contiguous block", z3.BoolVal(idx == list(range(sl.start, sl.stop))),
+                              "pipeline:penalty:contiguous"))
+                for nm, g in _slice_goal(az, lo, hi, sl):
+                    items.append(("end to end penalty: " + nm, g, "pipeline:penalty:" + ("inside-missed" if nm.startswith("every") else "beyond-nearest")))
+                del n
+            rec.check_all(ctx, items, wit)
+            rec.want_sample() and rec.sample({"pc": [str(c)[:80] for c in ctx.pc][:6], "columns_per_index": [c["matrix"].shape[1] for c in calls]})
+    rec.validate("pipeline", {}, {"ok": True})
+
+
+def _f_pipeline(cfg, env):
+    """Float replay: real pipeline with concrete bounds; affected index set vs closed interval membership."""
+    import warnings as _w
+
+    from harness import c02_objective as c02
+    from harness import pipeline as pl
+    from glotaran.optimization.optimizer import Optimizer
+
+    e = c02.salted("r1", {"IV_lo": float(env.get("IV_lo", 1.5)), "IV_hi": float(env.get("IV_hi", 3.0))})
+    axis = _pipeline_axis(cfg)
+    with Patcher() as p:
+        src = pl.Source(e, "r1")
+        stubs = pl.install(p, src)
+        with _w.catch_warnings():
+            _w.simplefilter("ignore")
+            scheme = pl.build_scheme(cfg, src)
+            Optimizer(scheme, verbose=False).calculate_penalty()
+        calls = c02.ordered_calls(stubs)
+    lo, hi = min(e["IV_lo"], e["IV_hi"]), max(e["IV_lo"], e["IV_hi"])
+    if cfg.get("constraints") or cfg.get("relations"):
+        item = (cfg.get("constraints") or cfg.get("relations"))[0]
+        acts = [c["matrix"].shape[1] == 2 for c in calls]
+        want = [(not (lo <= a <= hi)) if item.get("type") == "only" else (lo <= a <= hi) for a in axis]
+        return acts != want, (f"{cfg['name']}: interval ({e['IV_lo']}, {e['IV_hi']}) on global axis {axis}: item acts at {acts}, "
+                              f"closed interval membership gives {want}")
+    return False, "penalty index set: see symbolic obligation"
+
+
 # ------------------------------------------------------------------ float side
 def _f_axis(env, n):
     return np.array([env[f"a_{i}"] for i in range(n)], dtype=float)
@@ -622,6 +743,8 @@ def concrete(cfg, env):
 
         w, _ = _call_add_model_weight(dp, _weight_model(cfg, env), cfg["shape"])
         return {"w": [float(x) for x in np.asarray(w).flat]}
+    if k == "pipeline":
+        return {"ok": not _f_pipeline(cfg, env)[0]}
     return {}
 
 
@@ -701,6 +824,11 @@ def replay(data):
         lo, hi = min(env["lo"], env["hi"]), max(env["lo"], env["hi"])
         want = [(not (lo <= a <= hi)) if cfg["item"] == "only" else (lo <= a <= hi) for a in ax]
         return aff != want, f"{cfg['item']} on interval ({env['lo']},{env['hi']}) axis {ax.tolist()}: affected {aff}, expected {want}"
+    if k == "pipeline":
+        try:
+            return _f_pipeline(cfg, env)
+        except Exception as ex:  # noqa: BLE001
+            return True, f"{cfg['name']}: pipeline raised {type(ex).__name__}: {ex}"
     if k == "weight2":
         import glotaran.optimization.data_provider as dp
         from glotaran.model.weight import Weight
